@@ -31,7 +31,42 @@ def plan(tier, seed):
                       "cfg_over": {"max_T": 3 if tier == "quick" else 4, "allow_stochastic": stoch},
                       "force": {"filters": i % 3 != 2, "mixed_discrete": i % 4 == 0, "stochastic": stoch},
                       "agents": (12 if i % 11 != 10 else 300) if tier == "quick" else (48 if i % 6 != 5 else [300, 700, 1100][(i // 6) % 3]), "env": {"VERIF_X64": "1"}})
+    # dedicated template: a restricted choice with 3-4 categories whose number of admissible
+    # values depends on the agent's state (status >= lag, optionally thinned by a table), so
+    # that the per-agent segments have many different lengths
+    for i in range(6 if tier == "quick" else 60):
+        cases.append({"index": i, "seed": [seed, 82, i], "kind": "segment_template", "agents": 12 if i % 3 else 30, "env": {"VERIF_X64": "1"}})
     return cases
+
+
+def _segment_template(rng):
+    from vlib.gen import rnd
+
+    nl = int(rng.integers(3, 5))
+    nw = int(rng.integers(3, 7))
+    nc = int(rng.integers(2, 6))
+    two = bool(rng.random() < 0.5)
+    tab = rng.random((nl, nl, 2)) < 0.75
+    for a in range(nl):
+        tab[a, nl - 1, :] = True  # the highest status is always admissible
+    fns = [
+        ["utility", ["c", "status", "lag", "w", "dis"] + (["e"] if two else []),
+         "xp.log(c) - dis * status * (1 + 0.37 * lag) + 0.21 * xp.sqrt(w) * status" + (" + 0.113 * e * (status + 1)" if two else "")],
+        ["next_w", ["w", "c", "status", "r"], "(1 + r) * (w - c) + 1.3 * status"],
+        ["next_lag", ["status"], "status"],
+        ["bc_constraint", ["c", "w"], "c <= w"],
+        ["abs_filter", ["status", "lag"] + (["e"] if two else []), "(status >= lag) & FT[lag, status, " + ("e" if two else "0") + "]"],
+    ]
+    params = {"beta": rnd(rng, 0.7, 1.0), "utility": {"dis": rnd(rng, 0.1, 0.9)}, "next_w": {"r": rnd(rng, 0.0, 0.1)},
+              "next_lag": {}, "bc_constraint": {}, "abs_filter": {}}
+    order = rng.permutation(len(fns))
+    choices = [["c", {"kind": "lin", "start": 0.5, "stop": round(rnd(rng, 3, 8), 3), "n": nc}], ["status", {"kind": "disc", "n": nl}]]
+    if two:
+        choices.append(["e", {"kind": "disc", "n": 2}])
+    return {"n_periods": int(rng.integers(2, 4)),
+            "states": [["w", {"kind": "lin", "start": 1.0, "stop": round(rnd(rng, 10, 30), 3), "n": nw}], ["lag", {"kind": "disc", "n": nl}]],
+            "choices": [choices[i] for i in rng.permutation(len(choices))],
+            "functions": [fns[i] for i in order], "stochastic": [], "tables": {"FT": tab.tolist()}, "params": params}
 
 
 def run_case(case):
@@ -39,7 +74,11 @@ def run_case(case):
     from vlib.refmodel import Ref
 
     rng = pipeline.case_rng(case, 5)
-    desc, realised = pipeline.model_from_case(case)
+    if case.get("kind") == "segment_template" and "desc" not in case:
+        desc, realised = _segment_template(pipeline.case_rng(case)), {"filters": True}
+        pipeline.LAST["desc"], pipeline.LAST["realised"] = desc, realised
+    else:
+        desc, realised = pipeline.model_from_case(case)
     ref = Ref(desc)
     params = desc["params"]
     refsol = ref.solve(params)
@@ -98,6 +137,32 @@ def run_case(case):
         "single_last": np.array([N - 1]),
         "reversed_keys": base_ids,
     }
+    # hostile batch arithmetic: small groups whose numbers of admissible restricted-choice rows
+    # are UNEQUAL but add up to a multiple of the group size (or to equal totals), so that any
+    # shortcut that infers the per-agent block structure from totals is wrong for them
+    if ref.sparse_choices:
+        fm0 = ref.filter_mask(0)
+        ns = len(ref.sparse_states)
+        try:
+            sidx = tuple(np.clip(np.asarray(init[s_]).astype(int), 0, ref.spec[s_]["n"] - 1) for s_ in ref.sparse_states)
+            per_agent = (fm0[sidx] if ns else np.broadcast_to(fm0, (N,) + fm0.shape)).reshape(N, -1).sum(axis=1)
+        except Exception:  # noqa: BLE001
+            per_agent = None
+        if per_agent is not None and len(set(per_agent.tolist())) >= 2:
+            import itertools as _it
+
+            found = 0
+            pool = rng.permutation(N)[: min(N, 14)]
+            for k_ in (2, 3, 4):
+                for comb in _it.combinations(pool.tolist(), k_):
+                    c_ = per_agent[list(comb)]
+                    if len(set(c_.tolist())) >= 2 and int(c_.sum()) % k_ == 0 and c_.min() >= 1:
+                        variants[f"unequal_rows_{k_}_{found}"] = np.array(comb)
+                        found += 1
+                        break
+                if found >= 3:
+                    break
+            add("c08_unequal_row_groups", found)
     varcols = ref.states + ref.choices
     for name, ids in variants.items():
         try:
@@ -136,11 +201,11 @@ def run_case(case):
                 if real.any():
                     i0 = int(np.nonzero(real)[0][0])
                     res["violations"].append({
-                        "key": f"path_depends_on_batch:{name}",
+                        "key": f"path_depends_on_batch:{name.split('_rows_')[0]}",
                         "what": f"variant {name}, period {t}: {int(real.sum())}/{len(ids)} agents have a different row than in the base batch (agent id {int(ids[i0])}: value {va[i0]!r} vs {vb[i0]!r}; choices {[float(got[c][t][i0]) for c in ref.choices]} vs {[float(base[c][t][ids][i0]) for c in ref.choices]})"})
                 agree = agree & ~bad
     res["status"] = "violated" if res["violations"] else "held"
-    res["features"] = {**{k: bool(v) for k, v in realised.items()}, "stochastic_model": stochastic,
+    res["features"] = {**{k: bool(v) for k, v in realised.items()}, "stochastic_model": stochastic, "kind_" + str(case.get("kind", "generic")): True,
                        "restricted_choices": bool(ref.sparse_choices)}
     res["sig"] = f"{dsl.shape_signature(desc)}#{pipeline.param_hash(params)}"
     res["nontrivial"] = bool(N >= 4 and cnt.get("c08_variants_run", 0) >= 2)
